@@ -14,7 +14,9 @@ R6  the receive pump raises ``client_disconnected`` (what ``_send``/``closed``/`
     suspension point after pulling the disconnect event (function lives in c18.py: same pump context as C18 R3).
 
 R1 also decides, for accept()/close(): the write of ACCEPTED/CLOSED is not reachable through an exceptional edge
-out of the send of the accept/close event.  ``r3_session_paths`` (the "a completed close() on every path that ends
+out of the send of the accept/close event; and for every other method that calls the raw send (``_send``): CLOSED is
+written on the exceptional continuation of the send only under a test that the classification helper recognised the
+server's error as a connection loss, and that helper can answer "not a connection loss" (seeded s4-c17-1).  ``r3_session_paths`` (the "a completed close() on every path that ends
 a session" half of R3) is registered under C18 as its R5.
 
 Declared anchors (renaming one gives exit 2, never exit 1): class
@@ -38,7 +40,8 @@ from .. import flow
 from ..cfg import cfg_of
 from ..model import UNKNOWN, AnchorError, Func, UnknownIdiom, short
 from . import c18 as _c18
-from .c17_helpers import (BOTH, OUT_EVENTS, STATES, WS, WSModel, fold_local, local_defs, possible, single_return_expr)
+from .c17_helpers import (BOTH, OUT_EVENTS, RET_NONE, STATES, WS, WSModel, fold_local, local_defs, possible, return_kinds,
+                          single_return_expr)
 from .common import implied, single, strip_await, walk_self
 
 ASGI_APP = 'falcon.asgi.app.App'
@@ -176,6 +179,8 @@ def r1_operations(run):
     for f in ops:
         if f.name in ('accept', 'close'):
             _state_follows_completed_send(run, model, f)
+    # everywhere else: a failed send marks the socket CLOSED only when the error was recognised as a connection loss
+    _failed_send_marks_closed(run, model, ops)
 
 
 def _state_follows_completed_send(run, model: WSModel, f: Func):
@@ -220,6 +225,185 @@ def _state_follows_completed_send(run, model: WSModel, f: Func):
                                    'no-op and the client never receives a close') if promised == 'CLOSED' else
                                   'the server\'s send() raises for websocket.accept: the socket claims to be ACCEPTED, later sends go out on a '
                                   'connection that was never accepted')
+
+
+def _failed_send_marks_closed(run, model: WSModel, ops: List[Func]):
+    """Outside accept()/close() (decided above): on the exceptional continuation of the raw ASGI send the state may be
+    set to CLOSED only under a test showing that the server's error was *recognised as a connection loss* - the
+    value of the classification helper called with the caught exception is truthy / ``is not None`` / an instance of
+    some exception class - and that test must be able to fail: a helper all of whose returns are exceptions makes
+    ``if translated:`` vacuous.
+
+    Lemma: state CLOSED => a close event was delivered or the connection is lost.  A transient error of the
+    server's send() (a RuntimeError for one oversized frame, the client still connected) is neither; once CLOSED is
+    recorded ``closed`` is true, the framework's final close() returns without sending and every later send raises
+    WebSocketDisconnected on a live connection.
+
+    Idioms: truthiness / ``is (not) None`` / ``isinstance`` tests on the helper's result (bound to a single-assignment
+    local, a walrus, or tested directly); a CLOSED write reachable from the failed send only through other tests or a
+    class-specific ``except`` clause is a classification this rule does not model (-> unknown idiom)."""
+    p = run.project
+    for f in ops:
+        for cell in model.all_cells():
+            model.analyse(f, cell)
+    decided_above = {f.qual for f in ops if f.name in ('accept', 'close')}
+    n_senders = 0
+    helpers_ok: Dict[str, Func] = {}
+    helpers_vacuous: Dict[str, tuple] = {}
+    for q in sorted(model.visited_funcs):
+        if q in decided_above:
+            continue
+        g = p.func(q)
+        cfg = cfg_of(g, p)
+        sends = [n.id for n in cfg.live_nodes() if any(model.is_raw_send_call(c) for c in n.calls())]
+        if not sends:
+            continue
+        n_senders += 1
+        run.use_cfg(cfg)
+        starts = [y for s in sends for (y, l) in cfg.succ[s] if l == 'exc']
+        send_asts = {id(cfg.node(s).ast) for s in sends}
+        writes = [w for w in model.state_write_stmts(g, 'CLOSED') if id(w) not in send_asts]
+        exc_names = {n.ast.name for n in cfg.live_nodes() if n.kind == 'handler' and isinstance(n.ast, ast.ExceptHandler) and n.ast.name}
+
+        def helper_call(e, g=g, exc_names=exc_names):
+            e = strip_await(e)
+            if isinstance(e, ast.NamedExpr):
+                e = strip_await(e.value)
+            if isinstance(e, ast.Call) and any(isinstance(a, ast.Name) and a.id in exc_names for a in list(e.args) + [kw.value for kw in e.keywords]):
+                m = p.callee(g, e)
+                if isinstance(m, Func):
+                    return m
+            return None
+
+        def verdict(e, g=g, helper_call=helper_call):
+            """helper Func if `e` is the classification of the caught exception"""
+            m = helper_call(e)
+            if m is None and isinstance(e, ast.Name) and e.id not in g.params():
+                ds = local_defs(g, e.id)
+                if len(ds) == 1 and ds[0] is not None:
+                    m = helper_call(ds[0])
+            return m
+
+        def atom(e, g=g, verdict=verdict):
+            """(polarity, kind, helper): `e` true <=> (polarity: the error was recognised)"""
+            m = verdict(e)
+            if m is not None:
+                return (True, 'nonnull', m)
+            if isinstance(e, ast.Compare) and len(e.ops) == 1 and isinstance(e.ops[0], (ast.Is, ast.IsNot)) \
+                    and isinstance(e.comparators[0], ast.Constant) and e.comparators[0].value is None:
+                m = verdict(e.left)
+                if m is not None:
+                    return (isinstance(e.ops[0], ast.IsNot), 'nonnull', m)
+            if isinstance(e, ast.Call) and isinstance(e.func, ast.Name) and e.func.id == 'isinstance' and len(e.args) == 2 and not e.keywords:
+                m = verdict(e.args[0])
+                if m is not None:
+                    ts = e.args[1].elts if isinstance(e.args[1], ast.Tuple) else [e.args[1]]
+                    qs = tuple(sorted(p.resolve_expr(g.module, t, g) or '?' for t in ts))
+                    if '?' in qs:
+                        raise UnknownIdiom('%s: %s' % (g.qual, short(e)))
+                    return (True, qs, m)
+            return None
+
+        def facts(expr, truth, atom=atom):
+            """what `expr` evaluating to `truth` establishes: [(kind, helper)]"""
+            expr = strip_await(expr)
+            a = atom(expr)
+            if a is not None:
+                return [(a[1], a[2])] if a[0] == truth else []
+            if isinstance(expr, ast.UnaryOp) and isinstance(expr.op, ast.Not):
+                return facts(expr.operand, not truth)
+            if isinstance(expr, ast.BoolOp) and ((isinstance(expr.op, ast.And) and truth) or (isinstance(expr.op, ast.Or) and not truth)):
+                return [x for v in expr.values for x in facts(v, truth)]
+            return []
+
+        def says_not_a_loss(expr, truth, atom=atom):
+            """`expr` evaluating to `truth` establishes that the helper answered None"""
+            expr = strip_await(expr)
+            a = atom(expr)
+            if a is not None:
+                return a[1] == 'nonnull' and a[0] != truth
+            if isinstance(expr, ast.UnaryOp) and isinstance(expr.op, ast.Not):
+                return says_not_a_loss(expr.operand, not truth)
+            if isinstance(expr, ast.BoolOp) and ((isinstance(expr.op, ast.And) and truth) or (isinstance(expr.op, ast.Or) and not truth)):
+                return any(says_not_a_loss(v, truth) for v in expr.values)
+            return False
+
+        def is_vacuous(kind, m):
+            kinds = return_kinds(p, m)
+            if kind == 'nonnull':
+                return RET_NONE not in kinds
+            return all(k != RET_NONE and any(p.is_subclass(k, c) is True for c in kind) for k in kinds)
+
+        effective, vacuous, negative = [], [], []
+        edge_helpers: Dict[tuple, List[Func]] = {}
+        for t in cfg.live_nodes():
+            if t.kind != 'test':
+                continue
+            for lab, truth in (('T', True), ('F', False)):
+                if says_not_a_loss(t.ast, truth):
+                    negative.extend(flow.edges_out(cfg, t.id, lab))     # on this edge the helper answered None
+                fs = facts(t.ast, truth)
+                if not fs:
+                    continue
+                real = [(k, m) for (k, m) in fs if not is_vacuous(k, m)]
+                for e in flow.edges_out(cfg, t.id, lab):
+                    (effective if real else vacuous).append(e)
+                    edge_helpers[e] = [m for (_k, m) in (real or fs)]
+        conditional = [n.id for n in cfg.live_nodes() if n.kind == 'test' or (n.kind == 'handler' and not _catches_exception(n))]
+        n_on_failure_path = 0
+        for w in writes:
+            wn = [i for i in cfg.nodes_for(w)]
+            if not wn or flow.find_path(cfg, starts, wn, avoid_nodes=sends) is None:
+                continue
+            n_on_failure_path += 1
+            what = ('%s(): on the exceptional continuation of the ASGI send the state becomes CLOSED only under a test that the '
+                    'server\'s error was recognised as a connection loss (a transient send error does not close the session)' % g.name)
+            rw = ('the server\'s send() raises a RuntimeError for one data frame while the client stays connected: the socket is marked '
+                  'CLOSED, the framework\'s final close() returns without sending websocket.close and the next send_*() raises '
+                  'WebSocketDisconnected on a live connection')
+            path = flow.find_path(cfg, starts, wn, avoid_nodes=sends, avoid_edges=effective)
+            if path is None:
+                run.ok(what, g.loc(w), w)
+                for e in effective:
+                    for m in edge_helpers[e]:
+                        helpers_ok[m.qual] = m
+                continue
+            through_negative = None
+            for (a_, b_, l_) in negative:
+                p1 = flow.find_path(cfg, starts, [a_], avoid_nodes=sends, avoid_edges=effective)
+                p2 = flow.find_path(cfg, [b_], wn, avoid_nodes=sends, avoid_edges=effective)
+                if p1 is not None and p2 is not None:
+                    through_negative = p1 + p2
+            if through_negative is not None:
+                run.fail(what, g, w, witness=flow.describe_path(cfg, through_negative), runtime_witness=rw)
+                continue
+            if flow.find_path(cfg, starts, wn, avoid_nodes=sends, avoid_edges=effective + vacuous) is None:
+                for e in vacuous:
+                    for m in edge_helpers[e]:
+                        helpers_vacuous.setdefault(m.qual, (m, g, w, path, cfg))
+                continue
+            if flow.find_path(cfg, starts, wn, avoid_nodes=set(sends) | set(conditional)) is None:
+                raise UnknownIdiom('%s: %s is reachable from a failed ASGI send under a condition that is not a test of the '
+                                   'classification of the caught error (%s)' % (g.qual, short(w), ' / '.join(flow.describe_path(cfg, path)[:5])))
+            run.fail(what, g, w, witness=flow.describe_path(cfg, [s for s in sends if (path[0], 'exc') in cfg.succ[s]][:1] + path), runtime_witness=rw)
+        if n_on_failure_path == 0:
+            run.ok('%s(): no write of CLOSED is reachable from the exceptional continuation of the ASGI send' % g.name, g.loc(), '%s failed send' % g.name)
+    if n_senders == 0:
+        raise AnchorError('no method of the state machine besides accept()/close() calls the raw ASGI send')
+    for q, m in sorted(helpers_ok.items()):
+        if q in helpers_vacuous:
+            continue
+        kinds = return_kinds(p, m)
+        run.ok('%s can answer "not a connection loss" (returns: %s), so the test guarding CLOSED after a failed send is a real one'
+               % (m.name, ', '.join(sorted(k.rsplit('.', 1)[-1] for k in kinds))), m.loc(), '%s verdicts' % m.name)
+    for q, (m, g, w, path, cfg) in sorted(helpers_vacuous.items()):
+        kinds = return_kinds(p, m)
+        run.fail('%s can answer "not a connection loss": some return hands back None / something the guard of %s() rejects '
+                 '(otherwise every error of the server\'s send() marks the socket CLOSED)' % (m.name, g.name), m, '%s verdicts' % m.name,
+                 witness=['%s: %s' % (m.loc(r), short(r) if not isinstance(r, (ast.FunctionDef, ast.AsyncFunctionDef)) else 'implicit return')
+                          for k in sorted(kinds) for r in kinds[k]][:8] + ['guarded write: %s %s' % (g.loc(w), short(w))],
+                 runtime_witness='the server\'s send() raises a RuntimeError for one data frame while the client stays connected: the helper hands the '
+                                 'error back, the guard in %s() passes, the socket is marked CLOSED and no websocket.close is ever sent' % g.name)
 
 
 def _receive_disconnect(run, model: WSModel, f: Func):
